@@ -98,6 +98,8 @@ def scn_sched(d: Draw, prof: dict, *, selections: float = 0.0, history: float = 
     if history and d.bool(history):
         for _ in range(d.int(1, 2)):
             ops.append(dict(op="call", inst="E:main", args=draw_args(d, dg)))
+        if ops and ops[0]["op"] == "config" and d.bool(0.6):
+            ops.append(ops.pop(0))   # reconfigure after earlier calls: nothing computed for the old configuration may survive
     if compose and d.bool(compose):
         # derive a composed DAG (and maybe run it) before the call under test: must not change the original
         g = flat_graph(spec, "main")
@@ -156,7 +158,7 @@ def g_c06(d: Draw) -> dict:
         scn = scn_sched(d, P_C06D, selections=0.8, config=0.1)
         scn["debug_on"] = d.bool(0.7)
         return scn
-    return scn_sched(d, P_C06, selections=0.4, config=0.25)
+    return scn_sched(d, P_C06, selections=0.4, config=0.3, history=0.35)
 
 
 def g_c08(d: Draw) -> dict:
@@ -341,7 +343,7 @@ reg(Prop("C07", g_c07, {"cprio_table": "C07.a", "order_mc1": "C07.d", "raise": "
 
 
 # ----------------------------------------------------------------------------- selection / debug / setup family
-P_C12 = gen.profile(**{**gen.GRAPH, "p_setup": 0.12, "p_debug": 0.08, "n_stmts": (2, 12)})
+P_C12 = gen.profile(**{**gen.GRAPH, "p_setup": 0.12, "p_debug": 0.08, "n_stmts": (2, 12), "p_tag": 0.35, "p_tag_is_id": 0.3})
 P_C13 = gen.profile(**{**gen.GRAPH, "p_debug": 0.35, "p_setup": 0.08, "n_stmts": (2, 10)})
 P_C11 = gen.profile(**{**gen.GRAPH, "p_setup": 0.4, "n_stmts": (2, 9), "p_tag": 0.15})
 
@@ -371,7 +373,13 @@ def g_c13(d: Draw) -> dict:
         later = [(a, b) for a in dbg for b in nd if dg["stmts"].index(b) > dg["stmts"].index(a)]
         if later:
             a, b = d.pick(later)
-            b["args"] = list(b["args"]) + [["v", a["out"][0], []]]
+            ch = d.pick(["arg", "kwarg", "flag"])
+            if ch == "arg":
+                b["args"] = list(b["args"]) + [["v", a["out"][0], []]]
+            elif ch == "kwarg":
+                b["kwargs"] = [kv for kv in b["kwargs"] if kv[0] != "dbgk"] + [["dbgk", ["v", a["out"][0], []]]]
+            else:
+                b["flag"] = ["v", a["out"][0], []]
             scn = dict(program=spec, clients=[[dict(op="build", dags=spec["order"], expect_raise=["TawaziBaseException"])]], debug_on=debug_on)
             return scn
     ops: List[dict] = []
@@ -401,7 +409,14 @@ def g_c11(d: Draw) -> dict:
             plain = [s for s in dg["stmts"][:idx] if s["k"] == "call" and not spec["funcs"][s["fn"]]["setup"] and not spec["funcs"][s["fn"]]["debug"]]
             how = d.pick(["param", "node"])
             if how == "node" and plain:
-                b["args"] = list(b["args"]) + [["v", d.pick(plain)["out"][0], []]]
+                ch = d.pick(["arg", "kwarg", "flag"])
+                src = ["v", d.pick(plain)["out"][0], []]
+                if ch == "arg":
+                    b["args"] = list(b["args"]) + [src]
+                elif ch == "kwarg":
+                    b["kwargs"] = list(b["kwargs"]) + [["extra", src]]
+                else:
+                    b["flag"] = src
                 return dict(program=spec, clients=[[dict(op="build", dags=spec["order"], expect_raise=["TawaziBaseException"])]])
             if dg["params"]:
                 b["args"] = list(b["args"]) + [["v", dg["params"][0][0], []]]
@@ -457,9 +472,11 @@ reg(Prop("C11", g_c11, {"count_extra": "C11.a", "count_missing": "C11.c", "args"
 
 
 # ----------------------------------------------------------------------------- cache / compose / leak family
-P_C18 = gen.profile(**{**gen.GRAPH, "p_setup": 0.1, "n_stmts": (2, 9), "p_flag": 0.08, "p_tag": 0.0})
+P_C18 = gen.profile(**{**gen.GRAPH, "p_setup": 0.1, "n_stmts": (2, 9), "p_flag": 0.15, "p_tag": 0.0, "n_params": (0, 3),
+                       "ret_types": [("int", 5), ("none", 1)]})
 P_C19 = gen.profile(**{**gen.GRAPH, "p_setup": 0.1, "n_stmts": (2, 10), "p_flag": 0.15, "p_default": 0.5, "n_params": (0, 3), "p_tag": 0.2})
-P_C15 = gen.profile(**{**gen.SCHED, "p_setup": 0.0, "n_stmts": (2, 8), "p_flag": 0.15, "n_params": (1, 3), "p_default": 0.5})
+P_C15 = gen.profile(**{**gen.SCHED, "p_setup": 0.0, "n_stmts": (2, 8), "p_flag": 0.15, "n_params": (1, 3), "p_default": 0.5,
+                       "prio": (-2, 5), "p_prio": 0.7})
 
 
 def g_c18(d: Draw) -> dict:
@@ -487,7 +504,8 @@ def g_c18(d: Draw) -> dict:
         ops.append(dict(op="executor", inst="E:main", ex="r", sel={"T": T}, from_cache="c.pkl"))
     else:
         ops.append(dict(op="executor", inst="E:main", ex="r", cache_deps_of=T, from_cache="c.pkl"))
-    ops.append(dict(op="exrun", ex="r", args=args))
+    # a restart with other arguments supplies all of them (omitted ones would come from the cache file, not from the defaults)
+    ops.append(dict(op="exrun", ex="r", args=draw_args(d, dg, 0.0) if d.bool(0.35) else args))
     return base_scn(spec, ops)
 
 
@@ -548,7 +566,10 @@ def g_c15(d: Draw) -> dict:
             if mode != "exec":
                 ops.append(dict(op="exrun", ex=f"e{j}", args=draw_args(d, dg)))
         elif mode == "config":
-            ops.append(dict(op="config", inst="E:main", cfg={"max_concurrency": d.int(1, 4)}, how=d.pick(["dict", "json", "yaml"])))
+            conf: Dict[str, Any] = {"max_concurrency": d.int(1, 4)}
+            if calls_idx and d.bool(0.7):
+                conf["nodes"] = [[["id", i], {"priority": d.int(-3, 8)}] for i in d.sample(calls_idx, d.int(1, min(3, len(calls_idx))))]
+            ops.append(dict(op="config", inst="E:main", cfg=conf, how=d.pick(["dict", "json", "yaml"])))
         elif mode == "failbuild":
             k = d.int(0, len(dg["stmts"]) - 1)
             ops.append(dict(op="build", env=f"F{j}", dags=spec["order"], pauses={"main": {str(k): "raise"}}))
@@ -569,7 +590,8 @@ reg(Prop("C18", g_c18, {"value": "C18.a", "count_extra": "C18.b", "cache_keys": 
 reg(Prop("C19", g_c19, {"value": "C19.a", "count_extra": "C19.b", "count_missing": "C19.b", "noraise": "C19.c", "wrongexc": "C19.c",
                         "state_leak": "C19.d", "raise": "C19.a", "args": "C19.a"}, nontrivial="multi", n_sched=2, quick=4000))
 reg(Prop("C15", g_c15, {"value": "C15.a", "count_extra": "C15.a", "count_missing": "C15.a", "args": "C15.a", "raise": "C15.a",
-                        "state_leak": "C15.b", "rerun": "C15.c", "noraise": "C15.a"}, nontrivial="multi", n_sched=2, quick=4000))
+                        "state_leak": "C15.b", "rerun": "C15.c", "noraise": "C15.a", "prio": "C15.a", "order_mc1": "C15.a"},
+         nontrivial="multi", n_sched=2, quick=4000))
 
 
 # ----------------------------------------------------------------------------- C16 thread safety
